@@ -17,8 +17,10 @@ name used at another type - raises TranslateError: the run's translation obligat
 Effects: a function that (transitively) calls load_state_dict / prepare_write / prepare_read / sync_execute_read_reqs
 receives and returns the effect value `fx` (model/Glue.v).  `if x is None` / `if x is not None` on a variable of
 Optional type becomes a `match` and narrows the type of x in the branches (the rest of the block is translated once per
-branch, as Python executes it).  A `for` loop becomes `py_for` over the variables the body rebinds or mutates that are
-live after the loop or carried from one iteration to the next.
+branch, as Python executes it; an `if` whose branches only rebind existing variables is joined instead).  A `for` loop
+becomes `py_for` over the variables the body rebinds or mutates that are live after the loop or carried from one
+iteration to the next.  The part of _take_impl from `replicated_paths = ...` on is emitted once as a definition of its own
+(take_impl_tail_gen) and called from both branches of the RNG test (Sig.splits).
 """
 from __future__ import annotations
 
@@ -261,8 +263,9 @@ def carried_into(stmts, assigned: set) -> set:
 
 # ----------------------------------------------------------------------------- the functions of snapshot.py
 class Sig:
-    def __init__(self, py, gname, params, ret, mutated=(), consumed=(), defaults=None):
+    def __init__(self, py, gname, params, ret, mutated=(), consumed=(), defaults=None, splits=None):
         self.py, self.gname, self.params, self.ret = py, gname, params, ret
+        self.splits = splits or {}          # name assigned by a top-level statement -> name of the continuation that starts there
         self.mutated = list(mutated)        # parameters mutated in place whose new value the caller needs: returned
         self.consumed = list(consumed)      # parameters mutated in place that the caller must not use afterwards
         self.defaults = defaults or {}      # parameter -> Python constant
@@ -279,7 +282,7 @@ SIGS = [
     Sig("_take_impl", "take_impl_gen",
         [("cls", CLS), ("path", STR), ("app_state", SDICT(STATEFUL)), ("replicated", SET), ("pg_wrapper", PG), ("storage", STORE),
          ("event_loop", LOOP), ("is_async_snapshot", BOOL), ("_custom_tensor_prepare_func", OPT("customfn"))],
-        PAIR(STORE, META), defaults={"_custom_tensor_prepare_func": None}),
+        PAIR(STORE, META), defaults={"_custom_tensor_prepare_func": None}, splits={"replicated_paths": "take_impl_tail_gen"}),
     Sig("_get_state_dict_for_manifest", "get_state_dict_for_manifest_gen",
         [("stateful_key", STR), ("manifest", SDICT(ENTRY)), ("flattened", SDICT(OBJ)), ("pg", PG), ("storage", STORE),
          ("event_loop", LOOP), ("replicate_from_rank0", BOOL), ("memory_budget_bytes", OPT(INT))],
@@ -377,6 +380,8 @@ class Fn:
         self.env = dict(sig.params)
         self.ntmp = 0
         self.loop_conts = []
+        self.conts = {}                     # continuation name -> (parameter names, their types, definition text)
+        self.fn_end = None
 
     # ------------------------------------------------------------------ helpers
     def err(self, node, msg):
@@ -1056,6 +1061,9 @@ class Fn:
             return self.block(rest, ind, cont, later)
         if self.ignorable(s):
             return self.block(rest, ind, cont, later)
+        k = self.split_here(s, cont)
+        if k is not None:
+            return self.call_continuation(k, s, rest, ind, later)
         c = f"{ind}{comment(s)}\n"
 
         def nxt():
@@ -1108,6 +1116,44 @@ class Fn:
         if isinstance(s, ast.Expr) and isinstance(s.value, ast.Call):
             return c + self.call_stmt(s, s.value, ind) + nxt()
         self.err(s, "unsupported statement")
+
+    def split_here(self, s, cont):
+        """the continuation that starts at this statement (a top-level point of the function where the rest of the body is
+        emitted once as a definition of its own and called from every branch that reaches it)"""
+        if cont is not self.fn_end or self.loop_conts or getattr(self, "in_cont", None) is s:
+            return None
+        if isinstance(s, ast.Assign) and len(s.targets) == 1 and isinstance(s.targets[0], ast.Name):
+            return self.sig.splits.get(s.targets[0].id)
+        return None
+
+    def call_continuation(self, k, s, rest, ind, later):
+        stmts = [s] + rest
+        live = loads(stmts) | later
+        names = [n for n, t in self.env.items() if n in live and t not in ERASED and t != NONE and t != ("gatherbuf",)]
+        types = [self.env[n] for n in names]
+        for n, t in zip(names, types):
+            coqty(t)                                  # the type must be known at the split
+        if k not in self.conts:
+            saved_env, saved_tmp = dict(self.env), self.ntmp
+            self.in_cont = s
+            body = self.block(stmts, "  ", self.fn_end, later)
+            self.in_cont = None
+            self.env, self.ntmp = saved_env, saved_tmp
+            sig = self.sig
+            parts = [] if sig.ret is None else [coqty(sig.ret)]
+            parts += [coqty(dict(sig.params)[m]) for m in sig.mutated]
+            base = " * ".join(parts)
+            ret = (f"({base}) * effects" if base else "effects") if sig.effects else (base or "unit")
+            ps = " ".join(f"({self.v(n)} : {coqty(t)})" for n, t in zip(names, types))
+            text = (f"(* snapshot.py:{s.lineno}  the rest of {self.fn.name} from this statement on *)\n"
+                    f"Definition {k} (W : world) {ps}{' (fx : effects)' if sig.effects else ''} : option ({ret}) :=\n{body}.\n")
+            self.conts[k] = (names, types, text)
+        else:
+            n0, t0, _ = self.conts[k]
+            if n0 != names or not all(same(a, b) for a, b in zip(t0, types)):
+                self.err(s, f"the continuation {k} is reached with other live variables: {names} vs {n0}")
+        args = " ".join(self.v(n) for n in names)
+        return f"{ind}(* {s.lineno}: ... continued in {k} *)\n{ind}{k} W {args}{' fx' if self.sig.effects else ''}"
 
     def if_(self, s, rest, ind, cont, later):
         head = f"{ind}(* {s.lineno}: if {ast.unparse(s.test)[:90].replace(chr(34), chr(39))} *)\n"
@@ -1447,7 +1493,11 @@ class Fn:
                 raise TranslateError(self.where, "control reaches the end of the function without return / raise")
             return f"{ind}{self.ret_text(None)}"
 
+        self.fn_end = end
         body = self.block(body_stmts, "  ", end, set())
+        missing = [k for k in sig.splits.values() if k not in self.conts]
+        if missing:
+            raise TranslateError(self.where, f"the statements at which {missing} start were not found at the top level")
         ps = " ".join(f"({self.v(n)} : {coqty(t)})" for n, t in sig.params if t not in ERASED)
         parts = [] if sig.ret is None else [coqty(sig.ret)]
         parts += [coqty(dict(sig.params)[m]) for m in sig.mutated]
@@ -1457,7 +1507,8 @@ class Fn:
         else:
             ret = base or "unit"
         head = f"(* snapshot.py:{self.fn.lineno}  def {self.fn.name}({', '.join(sig.names())}) *)\n"
-        return head + f"Definition {sig.gname} (W : world) {ps}{' (fx : effects)' if sig.effects else ''} : option ({ret}) :=\n{body}.\n"
+        pre = "".join(t + "\n" for _, _, t in self.conts.values())
+        return pre + head + f"Definition {sig.gname} (W : world) {ps}{' (fx : effects)' if sig.effects else ''} : option ({ret}) :=\n{body}.\n"
 
 
 def _check_imports(tree: ast.Module):
